@@ -243,11 +243,21 @@ static int drv_random(unsigned long (*rnd)(void), vop_t *op)
     int pe = (rnd() % 12 == 0) ? sz + 1 : p;           /* sometimes one past the end */
     op->a[5] = (rnd() % 16 == 0);
     if (room < 4) { r = 30 + rnd() % 25; }             /* shrink when near the limit */
-    if (r < 12) { op->k = 1; op->a[0] = T_N(pe); op->a[1] = T_N((int)(rnd() % 4)); op->a[2] = c; }
+    if (MAXLEN >= 999) return 0;                       /* terms are packed with n < 1000 */
+    if (r < 12) {
+        /* mostly short runs, sometimes a long one (block-wise fill paths), never beyond the room left */
+        int cnt = (rnd() % 5 == 0) ? (int)(rnd() % 70) : (int)(rnd() % 4);
+        if (cnt > room) cnt = room > 0 ? room : 0;
+        op->k = 1; op->a[0] = T_N(pe); op->a[1] = T_N(cnt); op->a[2] = c;
+    }
     else if (r < 18) { op->k = 4; op->a[0] = T_N(pe); op->a[1] = l; }
     else if (r < 22) { op->k = 3; op->a[0] = T_N(pe); op->a[1] = l; op->a[2] = T_N((int)(rnd() % (unsigned)(LITLEN[l] + 1))); }
     else if (r < 26) { op->k = 7; op->a[0] = T_N(pe); op->a[1] = (int)(rnd() % 7); }
-    else if (r < 30) { op->k = 2 + 3 * (int)(rnd() % 2); if (op->k == 2) { op->a[0] = T_N((int)(rnd() % 3)); op->a[1] = c; } else op->a[0] = l; }
+    else if (r < 30) {
+        op->k = 2 + 3 * (int)(rnd() % 2);
+        if (op->k == 2) { int cnt = (rnd() % 4 == 0) ? (int)(rnd() % 70) : (int)(rnd() % 3); if (cnt > room) cnt = room > 0 ? room : 0; op->a[0] = T_N(cnt); op->a[1] = c; }
+        else op->a[0] = l;
+    }
     else if (r < 48) { op->k = 9; op->a[0] = T_N(pe); op->a[1] = (rnd() % 6 == 0) ? T_MAX((int)(rnd() % 3)) : T_N((int)(rnd() % (unsigned)(sz + 2))); op->a[5] = 0; }
     else if (r < 56) { op->k = 10; op->a[0] = T_N((int)(rnd() % (unsigned)(MAXLEN + 1))); if (rnd() % 20 == 0) op->a[0] = T_MAX((int)(rnd() % 3)); }
     else if (r < 60) { op->k = 11; op->a[0] = T_N((int)(rnd() % (unsigned)(MAXLEN + 1))); if (rnd() % 10 == 0) op->a[0] = T_MAX((int)(rnd() % 3)); }
